@@ -89,3 +89,55 @@ def clear_native_caches():
         try:
             if callable(getattr(o, 'cache_clear', None)) and callable(o): o.cache_clear()
         except Exception: pass
+
+CANDIDATES = ['hamlet', 'a', 's', 'char', 'ophelia', 'sq010', 'sh0010', 'model', 'anim', 'v001', 'w', 'smoke', 'ma', 'mov', 'abc', 'x']
+def example_values(T):
+    """a concrete, non-search example value per key of template T (first candidate its pattern accepts)"""
+    out = []
+    for key, pat in spec_templates()[T]:
+        for c in CANDIDATES:
+            if re.fullmatch(pat, c): out.append((key, c)); break
+        else: raise V.OutsideSubset(f'no example value for {key} of {T}')
+    return out
+def mk_concrete(it, T):
+    vals = example_values(T)
+    x = PObj(sid_class(it))
+    x.attrs['_string'] = '/'.join(v for _, v in vals); x.attrs['_type'] = T; x.attrs['_fields'] = PDict(vals)
+    return x, vals
+
+# ------------------------------------------------------------------ frame scan of the finder / getter classes (modifies clause: nothing reachable from self)
+MUTATORS = {'append', 'extend', 'add', 'update', 'setdefault', 'pop', 'popitem', 'remove', 'clear', 'insert', 'sort', 'discard'}
+READ_CLASSES_FILES = ['spil/sid/read/finder.py', 'spil/sid/read/finders/find_list.py', 'spil/sid/read/finders/find_glob.py', 'spil/sid/read/finders/find_all.py',
+                      'spil/sid/read/finders/find_constants.py', 'spil/sid/pathops/find_paths.py', 'spil/sid/read/getter.py', 'spil/sid/read/getters/getter_finder.py',
+                      'spil/sid/read/getters/getter_all.py', 'spil/sid/pathops/getter_paths.py']
+ALLOWED_SELF_WRITERS = {'__init__', '_sort_searchlist'}      # construction; the documented pre-sort of FindInList's own list
+def self_store_sites(world):
+    """(file, Class.method, line, what) for every statement in a read-only method of a finder / getter class that stores into a container held
+    by self (self.x[k] = v, self.x.append(...), ...) or rebinds a module global: the memo pattern that makes later answers depend on earlier ones"""
+    import ast, os
+    out = []
+    for rel in READ_CLASSES_FILES:
+        path = os.path.join(world.repo, rel)
+        if not os.path.exists(path): continue
+        tree = world.parse(path)
+        for cls in [n for n in tree.body if isinstance(n, ast.ClassDef)]:
+            for fn in [n for n in cls.body if isinstance(n, ast.FunctionDef)]:
+                if fn.name in ALLOWED_SELF_WRITERS: continue
+                selfname = fn.args.args[0].arg if fn.args.args else 'self'
+                def on_self(e):
+                    while isinstance(e, (ast.Attribute, ast.Subscript)): e = e.value
+                    return isinstance(e, ast.Name) and e.id == selfname
+                for n in ast.walk(fn):
+                    if isinstance(n, (ast.Assign, ast.AugAssign, ast.AnnAssign)):
+                        tgts = n.targets if isinstance(n, ast.Assign) else [n.target]
+                        for t in tgts:
+                            if isinstance(t, ast.Subscript) and on_self(t): out.append((rel, f'{cls.name}.{fn.name}', n.lineno, 'item assignment into a container of self'))
+                            elif isinstance(t, ast.Attribute) and on_self(t) and not isinstance(n, ast.AugAssign): out.append((rel, f'{cls.name}.{fn.name}', n.lineno, f'assignment to self.{t.attr}'))
+                    elif isinstance(n, ast.Call) and isinstance(n.func, ast.Attribute) and n.func.attr in MUTATORS and isinstance(n.func.value, (ast.Attribute, ast.Subscript)) and on_self(n.func.value):
+                        out.append((rel, f'{cls.name}.{fn.name}', n.lineno, f'{n.func.attr}() on a container of self'))
+                    elif isinstance(n, ast.Global): out.append((rel, f'{cls.name}.{fn.name}', n.lineno, 'global statement'))
+    return out
+def frame_scan_obligations(it, st, prefix, props):
+    sites = self_store_sites(it.world)
+    st.oblige(f'{prefix}:finder-and-getter-methods-keep-no-state-between-calls', not sites, props,
+              info={'sites': [f'{a}:{c} {b}: {d}' for a, b, c, d in sites][:6], 'rule': 'read-only methods of Finder / Getter classes do not store into self or module globals (frame: modifies nothing)'})
